@@ -68,6 +68,10 @@ CURVES = {
     5: (23, 2, 4, 2, "generic a, order 26 = 2*13, one 2-torsion point (y = 0)"),
     6: (251, 248, 26, 1, "a = p-3, prime order 223: bit length of n = 8 = field bytes * 8"),
     7: (251, 2, 34, 1, "generic a, prime order 239: bit length of n = 8"),
+    8: (7, 4, 6, 1, "tiny, a = p-3, prime order 11 > p (build-matrix curve)"),
+    9: (11, 2, 7, 1, "tiny, generic a, prime order 7 < p"),
+    10: (7, 4, 4, 2, "tiny, a = p-3, order 10 = 2*5, one 2-torsion point"),
+    11: (11, 1, 1, 2, "tiny, generic a, order 14 = 2*7, one 2-torsion point"),
 }
 
 
@@ -99,7 +103,7 @@ def build(cid):
     assert add(Q, g0, a, p) is None
     assert sorted(T[1:]) == sorted(pts)
     # independent cross-check of a few table entries with the dumb multiplication
-    for k in (2, 3, ntot // 2, ntot - 1):
+    for k in sorted(set((2, 3, ntot // 2, ntot - 1))):
         assert mul(k, g0, a, p) == T[k]
     G = T[h]
     assert mul(n, G, a, p) is None and G is not None
